@@ -2407,25 +2407,25 @@ DESCR = {
     "C11": {
         "rule": "Each run is one seeded history on a world built without aliasing (every Note is created for its place): transpose(shorthand, up) with the interval shorthands of size 0-11, augment, diminish, change_octave/octave_up/octave_down and up-then-down round trips on notes; transpose/augment/diminish and augment-then-diminish on note containers, bars and tracks (notes, chords, rests, mixed durations); sequences of them. Model: letter moves by (degree-1), pitch by +-size. Non-trivial = at least two operations applied. Distinct = distinct run shape.",
         "clauses": ["C11.exact", "C11.round_trip", "C11.lift", "C11.aug_dim", "C11.octave_floor", "C11.stall"],
-        "probes": ["grid:up", "grid:down", "container_with_rest", "octave_floor_hit", "transposed_below_octave_0", "track_from_chords_with_splits", "skipped_outside_name_domain"],
+        "probes": ["grid:up", "grid:down", "container_with_rest", "octave_floor_hit", "transposed_below_octave_0", "track_from_chords_with_splits", "skipped_outside_name_domain", "theory_chatter_ops", "theory_chatter_call_refused", "theory_chatter_call_cut_short"],
         "assumptions": ["the single-note clauses are pure functions of their input; they ride along inside histories because the history engine calls them anyway", "names are the 35 spelled names of the property's grid (a letter with at most two sharps or two flats); a history that has drifted to more accidentals is not judged until the note is set again (counted as skipped_outside_name_domain), because the library spells at most six accidentals and the statement's quantifier does not reach there", "round trips are demanded for canonical names only (only sharps or only flats)", "transposition has no floor: from octave 0 downwards the pitch number goes negative exactly (only change_octave clamps); invalid shorthands are not generated (the statement is silent)"],
     },
     "C14": {
         "rule": "Each run is one seeded history on up to three tracks and one composition: Track(instrument) for none/Instrument/Piano/Guitar/MidiInstrument, add_notes with notes, chords and rests in and out of range, track + x, add_bar (only when the track is empty or its last bar is full), from_chords with nested lists and None rests, composition add_track / + / add_note / selected_tracks, and protocol queries (len, indexing, equality against a twin rebuilt from the same items, test_integrity). The acceptance decision is read from what the call reported (the capacity rule is C13's). Non-trivial = at least two operations applied. Distinct = distinct run shape.",
         "clauses": ["C14.iterate", "C14.reject_atomic", "C14.integrity", "C14.inherit", "C14.conservation", "C14.rest_instrument", "C14.range", "C14.from_chords", "C14.selection", "C14.protocol", "C14.stall"],
-        "probes": ["library_opened_a_bar", "item_refused", "rejected_item_left_fresh_empty_bar", "note_out_of_range", "rest_with_instrument", "from_chords_item_split", "several_tracks_selected", "some_track_not_selected", "composition_equality_checked", "fullness_dont_care_band", "model_resync"],
+        "probes": ["library_opened_a_bar", "item_refused", "rejected_item_left_fresh_empty_bar", "note_out_of_range", "rest_with_instrument", "from_chords_item_split", "several_tracks_selected", "some_track_not_selected", "composition_equality_checked", "fullness_dont_care_band", "model_resync", "theory_chatter_ops", "theory_chatter_call_refused", "theory_chatter_call_cut_short", "another_instrument_given_its_own_range"],
         "assumptions": ["'full' follows C13's tolerance: with an exact remainder in (0, 0.002] either behaviour is accepted and the model follows the observed one", "a freshly opened empty last bar after a rejected item is tolerated iff the previous last bar was full", "Guitar chords of more than six notes are not generated (the statement does not mention the string limit); five- and six-note chords are"],
     },
     "C12": {
         "rule": "Each run is one seeded history on up to three NoteContainers: every addition form (Note object, bare name, name+octave, 'Name-octave', lists mixing those, [name, octave(, dynamics)] rows, another container, '+', the constructor), every removal form (name, name+octave, Note, lists, '-'), empty, the chord/interval/progression shorthand constructors, malformed additions, and queries (len, in, ==, get_note_names, the four consonance predicates with both flag values), against an insertion-ordered pitch->spelling set model. Non-trivial = at least two operations applied. Distinct = distinct run shape.",
         "clauses": ["C12.content", "C12.sorted_unique", "C12.remove_name", "C12.remove_octave", "C12.voicing", "C12.constructors", "C12.protocol", "C12.consonance", "C12.stall"],
-        "probes": ["voicing_ambiguous_spelling", "duplicate_pitch_ignored", "remove_name_in_several_octaves", "remove_octave_spares_other_octave", "equality_of_equal_containers", "consonance_on_three_or_more", "progression_checked_against_own_key_model", "spelling_differs_from_model", "model_resync"],
+        "probes": ["voicing_ambiguous_spelling", "duplicate_pitch_ignored", "remove_name_in_several_octaves", "remove_octave_spares_other_octave", "equality_of_equal_containers", "consonance_on_three_or_more", "progression_checked_against_own_key_model", "spelling_differs_from_model", "model_resync", "theory_chatter_ops", "theory_chatter_call_refused", "theory_chatter_call_cut_short", "chord_checked_against_own_interval_model"],
         "assumptions": ["voicing of a bare name is predicted exactly only when both the top note and the new name are spelled inside their octave; for octave-wrapping spellings (B#, Cb, ...) only the set invariants are judged and the model follows the observed octave", "chord/progression constructors are compared with the names the theory functions return for the same shorthand (those functions are C06/C08's subject)"],
     },
     "C13": {
         "rule": "Each run is one seeded history on up to three bars: Bar()/set_meter with valid, (0,0) and invalid meters (fractional units under a line budget), place_notes with every content form, place_rest, '+', remove_last_entry, index assignment, place_notes_at, empty, queries; values are symbolic (base longa..128th, dots 0-4, triplet/quintuplet/septuplet) and the model keeps exact Fractions. A fill mode packs bars to exactly their capacity and then issues refused operations. All clauses are evaluated after every operation. Non-trivial = at least two operations applied. Distinct = distinct run shape (sequence of (operation, outcome)).",
         "clauses": ["C13.starts", "C13.total", "C13.accept", "C13.append", "C13.refuse_atomic", "C13.edit_local", "C13.full", "C13.meter", "C13.stall"],
-        "probes": ["bar_exactly_full", "placement_fills_bar_exactly", "tuplet_fills_bar_exactly", "fullness_dont_care_band", "fractional_beat_unit", "negative_index_assignment", "model_resync"],
+        "probes": ["bar_exactly_full", "placement_fills_bar_exactly", "tuplet_fills_bar_exactly", "fullness_dont_care_band", "fractional_beat_unit", "negative_index_assignment", "model_resync", "theory_chatter_ops", "theory_chatter_call_refused", "theory_chatter_call_cut_short", "bar_created_after_others_have_history"],
     },
 }
 
